@@ -8,15 +8,27 @@
 //   ssrbphi off samp Vin kView                  -> f:off f:samp
 //   ev d1 r1 d2 r2 t w                          -> s v a tp t   or none          (adds w counts)
 //   ssrbdata norm                               -> n | s v a tp t val ; ...      or err
-//   invssrb <axial table of 3D m4> | <4D (seg, m4 list)> ...   see run_inverse_ssrb
-//   ext ...                                     see run_extend
+//                                                  (also answered a second time from the file written by SSRB(output_filename, ...))
+//   invssrb minTof maxTof rs3 rs4 | seg3 | minSeg4 seg4... | view/tang ranges of both | every bin of the direct sinograms
+//                                               -> every bin of the 4D data, or no (incompatible ranges) or err; see run_inverse_ssrb
+//   ext segnum views kn kd | ...                see run_extend (azimuthal sampling kn/kd * pi/views: 180, 360 degrees and others)
 //   ov1 / ovit / zoom / cog                     see the zoom section
+//   zvg out|inpl|rel | ...                      zoom_viewgram (both overloads) / zoom_viewgrams on arc-corrected viewgrams; see run_zoom_viewgram
+// Calls that are undefined behaviour on some revisions of the library (2-D-parameter zoom_image of an image whose first plane is not 0,
+// inverse_SSRB on incompatible data) are made in a forked child process, so that a crash is a verdict and not the end of the run.
 #include "stir_fixtures.h"
 #include "common.h"
 #include "stir/Bin.h"
 #include "stir/DetectionPositionPair.h"
 #include "stir/ProjDataInfoCylindricalNoArcCorr.h"
+#include "stir/ProjDataInfoCylindricalArcCorr.h"
 #include "stir/ProjDataInMemory.h"
+#include "stir/ProjData.h"
+#include "stir/Viewgram.h"
+#include "stir/RelatedViewgrams.h"
+#include "stir/ViewSegmentNumbers.h"
+#include "stir/TrivialDataSymmetriesForViewSegmentNumbers.h"
+#include "stir/recon_buildblock/DataSymmetriesForBins_PET_CartesianGrid.h"
 #include "stir/ExamInfo.h"
 #include "stir/SSRB.h"
 #include "stir/inverse_SSRB.h"
@@ -38,18 +50,47 @@
 #include <array>
 #include <tuple>
 #include <functional>
+#include <cstring>
+#include <unistd.h>
+#include <fcntl.h>
+#include <sys/wait.h>
+#include <sys/stat.h>
 
 using namespace stir;
 
 static FILE *ops, *out, *orc;
 static long oracle_checks = 0, oracle_fails = 0, known_hits = 0, n_ops = 0, n_out = 0;
 
+static std::map<std::string, std::vector<std::string>> fails_by_kind;
+static std::vector<std::string> kinds_in_order;
+
 static void
 oracle_fail(const std::string& text)
 {
   ++oracle_fails;
-  if (oracle_fails <= 40)
-    std::fprintf(orc, "ORACLE-FAIL %s\n", text.c_str());
+  // collected by kind of failure (kind = the first two words) and written at the end, see write_oracle_fails
+  const std::size_t sp1 = text.find(' ');
+  const std::size_t sp2 = sp1 == std::string::npos ? sp1 : text.find(' ', sp1 + 1);
+  const std::string kind = text.substr(0, sp2);
+  if (!fails_by_kind.count(kind))
+    kinds_in_order.push_back(kind);
+  std::vector<std::string>& v = fails_by_kind[kind];
+  if (v.size() < 6)
+    v.push_back(text);
+}
+
+// the first failure of every kind, then the second of every kind, ...: no kind hides another in the first lines (at most 60 lines)
+static void
+write_oracle_fails()
+{
+  int printed = 0;
+  for (std::size_t round = 0; round < 6; ++round)
+    for (const std::string& kind : kinds_in_order)
+      if (round < fails_by_kind[kind].size() && printed < 60)
+        {
+          ++printed;
+          std::fprintf(orc, "ORACLE-FAIL %s\n", fails_by_kind[kind][round].c_str());
+        }
 }
 
 static std::string
@@ -59,6 +100,70 @@ F(double x)
 }
 
 typedef std::array<int, 5> BinKey; // seg view ax tang tof
+
+static std::string scratch_dir; // for the files written by SSRB(output_filename, ...); removed at the end
+static long n_children = 0, n_files = 0;
+
+// runs f in a forked child process and collects the string it returns.  0: returned normally, 1: threw, 2: crashed / killed / timed out
+static int
+run_in_child(const std::function<std::string()>& f, std::string& result)
+{
+  ++n_children;
+  std::fflush(ops), std::fflush(out), std::fflush(orc);
+  result.clear();
+  int fd[2];
+  if (pipe(fd) != 0)
+    return 2;
+  const pid_t pid = fork();
+  if (pid < 0)
+    {
+      close(fd[0]), close(fd[1]);
+      return 2;
+    }
+  if (pid == 0)
+    {
+      close(fd[0]);
+      alarm(60);
+      { // the messages of a crashing child are not part of the verdict
+        const int nul = open("/dev/null", O_WRONLY);
+        if (nul >= 0)
+          dup2(nul, 2);
+      }
+      std::string r;
+      int code = 0;
+      try
+        {
+          r = f();
+        }
+      catch (...)
+        {
+          code = 1;
+        }
+      std::size_t off = 0;
+      while (off < r.size())
+        {
+          const ssize_t n = write(fd[1], r.data() + off, r.size() - off);
+          if (n <= 0)
+            break;
+          off += static_cast<std::size_t>(n);
+        }
+      close(fd[1]);
+      _exit(code);
+    }
+  close(fd[1]);
+  char buf[1 << 16];
+  ssize_t n;
+  while ((n = read(fd[0], buf, sizeof buf)) > 0)
+    result.append(buf, static_cast<std::size_t>(n));
+  close(fd[0]);
+  int st = 0;
+  waitpid(pid, &st, 0);
+  if (WIFEXITED(st) && WEXITSTATUS(st) == 0)
+    return 0;
+  if (WIFEXITED(st) && WEXITSTATUS(st) == 1)
+    return 1;
+  return 2;
+}
 
 // ---------------------------------------------------------------------------------------------- SSRB
 
@@ -113,6 +218,42 @@ is_shifted_single_rd_segment(const ProjDataInfoCylindrical& p, int s)
   return (p.get_min_ring_difference(s) - off) % 2 != 0;
 }
 
+// all non-zero bins of `d` (geometry `info`), sorted
+static std::vector<std::pair<BinKey, float>>
+nonzero_bins(const ProjData& d, const ProjDataInfo& info)
+{
+  std::vector<std::pair<BinKey, float>> nz;
+  for (int sg = info.get_min_segment_num(); sg <= info.get_max_segment_num(); ++sg)
+    for (int a = info.get_min_axial_pos_num(sg); a <= info.get_max_axial_pos_num(sg); ++a)
+      for (int t = info.get_min_tof_pos_num(); t <= info.get_max_tof_pos_num(); ++t)
+        {
+          const Sinogram<float> sino = d.get_sinogram(a, sg, false, t);
+          for (int v = sino.get_min_view_num(); v <= sino.get_max_view_num(); ++v)
+            for (int tp = sino.get_min_tangential_pos_num(); tp <= sino.get_max_tangential_pos_num(); ++tp)
+              if (sino[v][tp] != 0)
+                nz.push_back(std::make_pair(BinKey{ sg, v, a, tp, t }, sino[v][tp]));
+        }
+  std::sort(nz.begin(), nz.end());
+  return nz;
+}
+
+static std::string
+bins_answer(const std::vector<std::pair<BinKey, float>>& nz, bool norm)
+{
+  std::ostringstream s;
+  s << nz.size() << " |";
+  for (auto& e : nz)
+    {
+      s << " " << e.first[0] << " " << e.first[1] << " " << e.first[2] << " " << e.first[3] << " " << e.first[4] << " ";
+      if (norm)
+        s << F(e.second);
+      else
+        s << static_cast<long>(e.second);
+      s << " ;";
+    }
+  return s.str();
+}
+
 struct SsrbParams
 {
   int kSeg, kView, trim, maxSeg, kTof;
@@ -126,7 +267,8 @@ run_ssrb_data(const shared_ptr<const ProjDataInfoCylindricalNoArcCorr>& in,
               const SsrbParams& prm,
               vh::Rng& rng,
               int nevents,
-              bool also_norm)
+              bool also_norm,
+              bool file_variant)
 {
   const Scanner& sc = *in->get_scanner_ptr();
   const int N = sc.get_num_detectors_per_ring(), R = sc.get_num_rings();
@@ -191,6 +333,8 @@ run_ssrb_data(const shared_ptr<const ProjDataInfoCylindricalNoArcCorr>& in,
   for (auto& kv : sinos)
     din.set_sinogram(kv.second);
 
+  std::vector<std::pair<BinKey, float>> nz_mem[2];
+  bool have_mem[2] = { false, false };
   for (int norm = 0; norm <= (also_norm ? 1 : 0); ++norm)
     {
       ProjDataInMemory& d = norm ? dout_norm : dout;
@@ -209,33 +353,12 @@ run_ssrb_data(const shared_ptr<const ProjDataInfoCylindricalNoArcCorr>& in,
           ++n_out, std::fprintf(out, "err\n");
           if (!norm)
             return;
-          continue;
+          continue; // (not reached in practice: the errors of SSRB(out, in) do not depend on do_norm)
         }
-      std::ostringstream s;
-      long n = 0;
-      std::vector<std::pair<BinKey, float>> nz;
-      for (int sg = outinfo->get_min_segment_num(); sg <= outinfo->get_max_segment_num(); ++sg)
-        for (int a = outinfo->get_min_axial_pos_num(sg); a <= outinfo->get_max_axial_pos_num(sg); ++a)
-          for (int t = outinfo->get_min_tof_pos_num(); t <= outinfo->get_max_tof_pos_num(); ++t)
-            {
-              const Sinogram<float> sino = d.get_sinogram(a, sg, false, t);
-              for (int v = sino.get_min_view_num(); v <= sino.get_max_view_num(); ++v)
-                for (int tp = sino.get_min_tangential_pos_num(); tp <= sino.get_max_tangential_pos_num(); ++tp)
-                  if (sino[v][tp] != 0)
-                    nz.push_back(std::make_pair(BinKey{ sg, v, a, tp, t }, sino[v][tp]));
-            }
-      std::sort(nz.begin(), nz.end());
-      s << nz.size() << " |";
-      for (auto& e : nz)
-        {
-          s << " " << e.first[0] << " " << e.first[1] << " " << e.first[2] << " " << e.first[3] << " " << e.first[4] << " ";
-          if (norm)
-            s << F(e.second);
-          else
-            s << static_cast<long>(e.second);
-          s << " ;";
-        }
-      ++n_out, std::fprintf(out, "%s\n", s.str().c_str());
+      const std::vector<std::pair<BinKey, float>> nz = nonzero_bins(d, *outinfo);
+      ++n_out, std::fprintf(out, "%s\n", bins_answer(nz, norm != 0).c_str());
+      nz_mem[norm] = nz;
+      have_mem[norm] = true;
 
       if (norm)
         continue;
@@ -381,6 +504,63 @@ run_ssrb_data(const shared_ptr<const ProjDataInfoCylindricalNoArcCorr>& in,
                         + std::to_string(phi_mean) + "->" + std::to_string(phi_out) + " k_ok=" + std::to_string(k_ok) + " in{" + geom_str(*in)
                         + "} out{" + geom_str(*outinfo) + "}");
         }
+    }
+
+  // ---------------- the overload that computes the output geometry itself and writes an Interfile pair:
+  // SSRB(output_filename, in, num_segments_to_combine, num_views_to_combine, num_tang_poss_to_trim, do_norm, max_in_segment_num_to_process,
+  //      num_tof_bins_to_combine); the file is read back and answers the same `ssrbdata` operation again
+  // (not when a negative trim has widened the tangential range beyond the scanner's maximum number of non-arc-corrected bins: such a
+  //  geometry exists in memory but its Interfile header is refused when read back -- a matter of the file format, not of rebinning)
+  if (file_variant && have_mem[0] && outinfo->get_num_tangential_poss() <= sc.get_max_num_non_arccorrected_bins())
+    {
+      const int norm = (have_mem[1] && rng.coin()) ? 1 : 0;
+      const std::string base = scratch_dir + "/ssrb" + std::to_string(n_files++);
+      ++n_ops, std::fprintf(ops, "ssrbdata %d\n", norm);
+      std::string answer = "err";
+      bool ok = false;
+      try
+        {
+          SSRB(base, din, prm.kSeg, prm.kView, prm.trim, norm != 0, prm.maxSeg, prm.kTof);
+          shared_ptr<ProjData> rd = ProjData::read_from_file(base + ".hs");
+          const std::vector<std::pair<BinKey, float>> nzf = nonzero_bins(*rd, *rd->get_proj_data_info_sptr());
+          answer = bins_answer(nzf, norm != 0);
+          ok = true;
+          // ORACLE: same geometry and same bins as the in-memory overload given SSRB(info, ...) of the same arguments
+          ++oracle_checks;
+          // (TOF data mashed into a single TOF bin come back from the Interfile header as non-TOF data: a matter of the file format (C02),
+          //  not of rebinning; the mashing factor is therefore compared only when there are several TOF bins)
+          auto rinfo = dynamic_pointer_cast<const ProjDataInfoCylindrical>(rd->get_proj_data_info_sptr());
+          auto io_geom = [](const ProjDataInfoCylindrical& q) {
+            std::string g = geom_str(q);
+            if (q.get_num_tof_poss() == 1)
+              g = g.substr(0, g.find(" | tof ")) + " | tof single";
+            return g;
+          };
+          const bool same_tof_kind = rinfo && rinfo->get_tof_mash_factor() == outinfo->get_tof_mash_factor();
+          if (!rinfo || io_geom(*rinfo) != io_geom(*outinfo) || (same_tof_kind && !(*rd->get_proj_data_info_sptr() == *outinfo)))
+            oracle_fail("SSRB(output_filename, ...) writes another geometry than SSRB(ProjDataInfo, ...) of the same arguments: file{"
+                        + (rinfo ? geom_str(*rinfo) : std::string("not cylindrical")) + "} expected{" + geom_str(*outinfo) + "} kSeg=" + std::to_string(prm.kSeg)
+                        + " kView=" + std::to_string(prm.kView) + " trim=" + std::to_string(prm.trim) + " maxSeg=" + std::to_string(prm.maxSeg)
+                        + " kTof=" + std::to_string(prm.kTof));
+          ++oracle_checks;
+          if (nzf != nz_mem[norm])
+            oracle_fail("SSRB(output_filename, ..., do_norm=" + std::to_string(norm) + ") differs from SSRB(out, in, do_norm) on the same data: "
+                        + std::to_string(nzf.size()) + " vs " + std::to_string(nz_mem[norm].size()) + " non-zero bins; in{" + geom_str(*in) + "} kSeg="
+                        + std::to_string(prm.kSeg) + " kView=" + std::to_string(prm.kView) + " trim=" + std::to_string(prm.trim)
+                        + " maxSeg=" + std::to_string(prm.maxSeg) + " kTof=" + std::to_string(prm.kTof));
+        }
+      catch (...)
+        {
+        }
+      if (!ok)
+        {
+          ++oracle_checks;
+          oracle_fail("SSRB(output_filename, ...) fails (or its file cannot be read back) although SSRB(out, in) succeeds on the same arguments: in{"
+                      + geom_str(*in) + "}");
+        }
+      ++n_out, std::fprintf(out, "%s\n", answer.c_str());
+      std::remove((base + ".hs").c_str());
+      std::remove((base + ".s").c_str());
     }
 }
 
@@ -773,6 +953,44 @@ images_agree(const VoxelsOnCartesianGrid<float>& a, const VoxelsOnCartesianGrid<
   return true;
 }
 
+// an image as bytes (to bring a result back from a child process)
+static std::string
+pack_img(const VoxelsOnCartesianGrid<float>& im)
+{
+  const ImgGeom g = geom_of(im);
+  std::string s(reinterpret_cast<const char*>(&g), sizeof g);
+  for (int z = im.get_min_z(); z <= im.get_max_z(); ++z)
+    for (int y = im.get_min_y(); y <= im.get_max_y(); ++y)
+      for (int x = im.get_min_x(); x <= im.get_max_x(); ++x)
+        {
+          const float v = im[z][y][x];
+          s.append(reinterpret_cast<const char*>(&v), sizeof v);
+        }
+  return s;
+}
+
+static bool
+unpack_img(const std::string& s, std::size_t& pos, VoxelsOnCartesianGrid<float>& im)
+{
+  ImgGeom g;
+  if (pos + sizeof g > s.size())
+    return false;
+  std::memcpy(&g, s.data() + pos, sizeof g);
+  pos += sizeof g;
+  if (g.nz < 0 || g.ny < 0 || g.nx < 0 || g.nz > 64 || g.ny > 64 || g.nx > 64
+      || pos + sizeof(float) * static_cast<std::size_t>(g.nz) * g.ny * g.nx > s.size())
+    return false;
+  im = make_img(g);
+  for (int z = im.get_min_z(); z <= im.get_max_z(); ++z)
+    for (int y = im.get_min_y(); y <= im.get_max_y(); ++y)
+      for (int x = im.get_min_x(); x <= im.get_max_x(); ++x)
+        {
+          std::memcpy(&im[z][y][x], s.data() + pos, sizeof(float));
+          pos += sizeof(float);
+        }
+  return true;
+}
+
 static void
 run_cog(const VoxelsOnCartesianGrid<float>& im)
 {
@@ -820,7 +1038,7 @@ run_zoom_case(vh::Rng& rng)
   g.ny = rng.range(3, 8);
   g.nx = rng.range(3, 8);
   const bool twod = rng.coin(); // request expressible with the (zoom, x_offset, y_offset, new_size) interface
-  g.zmin = twod ? 0 : (rng.range(0, 3) == 0 ? rng.range(-2, 2) : 0);
+  g.zmin = rng.range(0, 3) == 0 ? rng.range(-2, 2) : 0; // (the first plane of the input need not be plane 0, also for the 2-D interface)
   g.ymin = rng.range(0, 3) == 0 ? rng.range(-5, 1) : -(g.ny / 2);
   g.xmin = rng.range(0, 3) == 0 ? rng.range(-5, 1) : -(g.nx / 2);
   g.vz = rng.coin() ? 2.F : static_cast<float>(1 + rng.unit() * 3);
@@ -910,24 +1128,60 @@ run_zoom_case(vh::Rng& rng)
   if (!images_agree(A, C, 1e-5))
     oracle_fail("two-step zoom_image(out, in) differs from the one-call zoom_image: " + pa.str() + " in: " + in_txt);
   VoxelsOnCartesianGrid<float> D = A;
+  bool d_ok = true;
   if (twod)
     {
       std::ostringstream pd;
       pd << vh::hex(zx) << " " << vh::hex(offx) << " " << vh::hex(offy) << " " << nx;
       ++n_ops, std::fprintf(ops, "zoom 2d %d | %s | %s |%s\n", opt, in_txt.c_str(), pd.str().c_str(), dat_txt.c_str());
-      D = zoom_image(in, zx, offx, offy, nx, zo);
-      ++n_out, std::fprintf(out, "%s\n", img_answer(D).c_str());
-      VoxelsOnCartesianGrid<float> E(in);
-      zoom_image_in_place(E, zx, offx, offy, nx, zo);
+      // the plane loop of this overload numbers the planes of the new image: undefined behaviour on some revisions when the first plane
+      // of the input is not 0, therefore in a child process then
+      bool de_agree = true;
+      if (g.zmin == 0)
+        {
+          D = zoom_image(in, zx, offx, offy, nx, zo);
+          VoxelsOnCartesianGrid<float> E(in);
+          zoom_image_in_place(E, zx, offx, offy, nx, zo);
+          de_agree = images_agree(D, E, 0);
+        }
+      else
+        {
+          std::string res;
+          const int st = run_in_child(
+              [&] {
+                const VoxelsOnCartesianGrid<float> d = zoom_image(in, zx, offx, offy, nx, zo);
+                VoxelsOnCartesianGrid<float> e(in);
+                zoom_image_in_place(e, zx, offx, offy, nx, zo);
+                return pack_img(d) + pack_img(e);
+              },
+              res);
+          std::size_t pos = 0;
+          VoxelsOnCartesianGrid<float> E(in);
+          if (st != 0 || !unpack_img(res, pos, D) || !unpack_img(res, pos, E))
+            d_ok = false;
+          else
+            de_agree = images_agree(D, E, 0);
+        }
       ++oracle_checks;
-      if (!images_agree(D, E, 0))
-        oracle_fail("zoom_image_in_place (2-D parameters) differs from zoom_image: " + pd.str() + " in: " + in_txt);
-      // (the 2-D interface returns the image untouched when zoom==1, offsets==0 and new_size==x_size, without looking at y_size:
-      //  for a non-square image that is not the requested grid -- reported, not compared)
-      const bool shortcut_nonsquare = zx == 1.F && offx == 0.F && offy == 0.F && nx == g.nx && g.ny != g.nx;
-      ++oracle_checks;
-      if (!shortcut_nonsquare && !images_agree(A, D, 1e-5))
-        oracle_fail("zoom_image with (zoom, offsets, size) differs from zoom_image with the equivalent 3-D parameters: " + pd.str() + " in: " + in_txt);
+      if (!d_ok)
+        {
+          ++n_out, std::fprintf(out, "crash\n");
+          oracle_fail("zoom_image with (zoom, offsets, size) crashes / throws on an image whose first plane is " + std::to_string(g.zmin)
+                      + " (the 3-D-parameter call with the equivalent request works): " + pd.str() + " in: " + in_txt);
+        }
+      else
+        {
+          ++n_out, std::fprintf(out, "%s\n", img_answer(D).c_str());
+          if (!de_agree)
+            oracle_fail("zoom_image_in_place (2-D parameters) differs from zoom_image: " + pd.str() + " in: " + in_txt);
+          // (the 2-D interface returns the image untouched when zoom==1, offsets==0 and new_size==x_size, without looking at y_size:
+          //  for a non-square image that is not the requested grid -- reported, not compared)
+          const bool shortcut_nonsquare = zx == 1.F && offx == 0.F && offy == 0.F && nx == g.nx && g.ny != g.nx;
+          ++oracle_checks;
+          if (!shortcut_nonsquare && !images_agree(A, D, 1e-5))
+            oracle_fail("zoom_image with (zoom, offsets, size) differs from zoom_image with the equivalent 3-D parameters (first plane of the input: "
+                        + std::to_string(g.zmin) + "): " + pd.str() + " in: " + in_txt);
+        }
     }
   // F: an output grid chosen freely (not through the zoom parameters)
   if (rng.range(0, 2) == 0)
@@ -957,7 +1211,7 @@ run_zoom_case(vh::Rng& rng)
 
   // ---------------- ORACLE on A (and on D): the property's own statement
   const VoxelsOnCartesianGrid<float>* results[2] = { &A, &D };
-  for (int r = 0; r < (twod ? 2 : 1); ++r)
+  for (int r = 0; r < (twod && d_ok ? 2 : 1); ++r)
     {
       const VoxelsOnCartesianGrid<float>& O = *results[r];
       const ImgGeom go = geom_of(O);
@@ -1038,17 +1292,311 @@ run_zoom_case(vh::Rng& rng)
     }
 }
 
+// ---------------------------------------------------------------------------------------------- zoom_viewgram / zoom_viewgrams
+
+struct VgFill
+{
+  bool nonneg;
+  bool uniform; // value c on the tangential positions b0..b1 of every row, 0 elsewhere
+  float c;
+  int b0, b1;
+};
+
+static void
+fill_viewgram(Viewgram<float>& v, const VgFill& f, vh::Rng& rng)
+{
+  for (int a = v.get_min_axial_pos_num(); a <= v.get_max_axial_pos_num(); ++a)
+    for (int t = v.get_min_tangential_pos_num(); t <= v.get_max_tangential_pos_num(); ++t)
+      v[a][t] = f.uniform ? (t >= f.b0 && t <= f.b1 ? f.c : 0.F) : rand_value(rng, !f.nonneg);
+}
+
+static std::string
+viewgram_data(const Viewgram<float>& v, bool tagged)
+{
+  std::ostringstream s;
+  for (int a = v.get_min_axial_pos_num(); a <= v.get_max_axial_pos_num(); ++a)
+    for (int t = v.get_min_tangential_pos_num(); t <= v.get_max_tangential_pos_num(); ++t)
+      s << " " << (tagged ? F(v[a][t]) : vh::hex(v[a][t]));
+  return s.str();
+}
+
+static float
+tang_sampling(const Viewgram<float>& v)
+{
+  return dynamic_cast<const ProjDataInfoCylindricalArcCorr&>(*v.get_proj_data_info_sptr()).get_tangential_sampling();
+}
+
+// the property's statement on one zoomed viewgram: along the tangential direction counts are conserved when the new range covers the data,
+// the centroid (in mm, in the frame of the input: s_in = s_out + x cos(phi) + y sin(phi)) moves by at most half the sum of the bin sizes,
+// uniform data stay uniform (value * zoom)
+static void
+viewgram_oracle(const Viewgram<float>& in, const Viewgram<float>& o, float xoff, float yoff, const VgFill& f, const std::string& what)
+{
+  const ProjDataInfoCylindricalArcCorr& pin = dynamic_cast<const ProjDataInfoCylindricalArcCorr&>(*in.get_proj_data_info_sptr());
+  const double in_bin = tang_sampling(in), out_bin = tang_sampling(o);
+  const double zoom = in_bin / out_bin;
+  // the angle of the view, not taken from get_phi
+  const double phi = static_cast<double>(pin.get_azimuthal_angle_offset()) + in.get_view_num() * (_PI / pin.get_num_views());
+  const double shift = xoff * std::cos(phi) + yoff * std::sin(phi);
+  ++oracle_checks;
+  if (in.get_view_num() != o.get_view_num() || in.get_segment_num() != o.get_segment_num() || in.get_timing_pos_num() != o.get_timing_pos_num()
+      || in.get_min_axial_pos_num() != o.get_min_axial_pos_num() || in.get_max_axial_pos_num() != o.get_max_axial_pos_num())
+    {
+      oracle_fail(what + ": the zoomed viewgram is not the viewgram of the same view / segment / TOF position / axial range");
+      return;
+    }
+  const int imin = in.get_min_tangential_pos_num(), imax = in.get_max_tangential_pos_num();
+  const int omin = o.get_min_tangential_pos_num(), omax = o.get_max_tangential_pos_num();
+  for (int a = in.get_min_axial_pos_num(); a <= in.get_max_axial_pos_num(); ++a)
+    {
+      double sum_in = 0, abs_in = 0, mom_in = 0, sum_out = 0, mom_out = 0;
+      int first_nz = imax + 1, last_nz = imin - 1;
+      for (int t = imin; t <= imax; ++t)
+        {
+          const double v = in[a][t];
+          sum_in += v, abs_in += std::fabs(v), mom_in += v * (t * in_bin);
+          if (v != 0)
+            first_nz = std::min(first_nz, t), last_nz = std::max(last_nz, t);
+        }
+      for (int t = omin; t <= omax; ++t)
+        {
+          const double v = o[a][t];
+          sum_out += v, mom_out += v * (t * out_bin + shift);
+        }
+      if (first_nz > last_nz)
+        continue;
+      const double eps = 1e-4 * (in_bin + out_bin);
+      const bool covers = (omin - .5) * out_bin + shift <= (first_nz - .5) * in_bin + eps && (omax + .5) * out_bin + shift >= (last_nz + .5) * in_bin - eps;
+      std::ostringstream w;
+      w << what << ": view " << in.get_view_num() << " of " << pin.get_num_views() << " segment " << in.get_segment_num() << " axial position " << a
+        << " zoom " << zoom << " bin size " << in_bin << " offsets (" << xoff << "," << yoff << ") mm, tangential range " << imin << ".." << imax << " -> "
+        << omin << ".." << omax;
+      if (covers)
+        {
+          ++oracle_checks;
+          if (std::fabs(sum_out - sum_in) > 1e-4 * abs_in)
+            oracle_fail("zoomed viewgram does not conserve the counts of a row although the new range covers the data: " + std::to_string(sum_in) + " -> "
+                        + std::to_string(sum_out) + ": " + w.str());
+          if (f.nonneg && sum_in > 0 && sum_out > 0)
+            {
+              ++oracle_checks;
+              if (std::fabs(mom_out / sum_out - mom_in / sum_in) > 0.5 * (in_bin + out_bin) + 1e-3)
+                oracle_fail("zoomed viewgram moves the centroid of a row by more than half the sum of the bin sizes: " + std::to_string(mom_in / sum_in)
+                            + " mm -> " + std::to_string(mom_out / sum_out) + " mm: " + w.str());
+            }
+        }
+      if (f.uniform)
+        for (int t = omin; t <= omax; ++t)
+          {
+            const double l = (t - .5) * out_bin + shift, r = (t + .5) * out_bin + shift;
+            const double e3 = 1e-3 * (in_bin + out_bin);
+            if (l >= (f.b0 - .5) * in_bin + e3 && r <= (f.b1 + .5) * in_bin - e3)
+              {
+                ++oracle_checks;
+                if (std::fabs(o[a][t] * zoom - f.c) > 2e-4 * f.c)
+                  oracle_fail("zoomed viewgram of uniform data is not uniform (value*zoom != c) at tangential position " + std::to_string(t) + ": "
+                              + std::to_string(o[a][t] * zoom) + " vs " + std::to_string(f.c) + ": " + w.str());
+              }
+          }
+    }
+}
+
+static void
+run_zoom_viewgram(vh::Rng& rng)
+{
+  const int Ns[] = { 8, 10, 12, 16 };
+  const int N = Ns[rng.range(0, 3)];
+  const int R = rng.range(1, 3);
+  const bool tof = rng.range(0, 3) == 0;
+  shared_ptr<Scanner> scanner = vh::make_scanner(N, R, tof ? 3 : -1);
+  const std::vector<int> dv = divisors(N / 2);
+  const int views = N / 2 / dv[rng.range(0, (int)dv.size() - 1)];
+  const int ntang = rng.range(2, 9);
+  shared_ptr<ProjDataInfo> p = vh::make_pdi(scanner, 1, R - 1, views, ntang, true, tof ? 1 : 0);
+  ProjDataInfoCylindricalArcCorr* pa = dynamic_cast<ProjDataInfoCylindricalArcCorr*>(p.get());
+  ++oracle_checks;
+  if (!pa)
+    {
+      oracle_fail("construct_proj_data_info(arc_corrected = true) does not return arc-corrected geometry");
+      return;
+    }
+  if (rng.coin())
+    pa->set_tangential_sampling(static_cast<float>(1 + rng.unit() * 3));
+  const bool tilted = rng.range(0, 3) == 0;
+  if (tilted)
+    pa->set_azimuthal_angle_offset(static_cast<float>(rng.unit() - .5));
+  if (rng.range(0, 3) == 0) // a tangential range that is not centred
+    pa->set_max_tangential_pos_num(pa->get_max_tangential_pos_num() + rng.range(1, 2));
+  const float in_bin = pa->get_tangential_sampling();
+  const int imin = p->get_min_tangential_pos_num(), imax = p->get_max_tangential_pos_num();
+  const int seg = rng.range(p->get_min_segment_num(), p->get_max_segment_num());
+  const int view = rng.range(0, views - 1);
+  const int tpos = rng.range(p->get_min_tof_pos_num(), p->get_max_tof_pos_num());
+
+  VgFill f;
+  const int kind = rng.range(0, 5); // 0,1: non-negative, 2: signed, 3: uniform everywhere, 4: uniform block, 5: one bin
+  f.nonneg = kind != 2;
+  f.uniform = kind >= 3;
+  f.c = static_cast<float>(1 + rng.unit() * 5);
+  f.b0 = imin, f.b1 = imax;
+  if (kind >= 4)
+    {
+      f.b0 = rng.range(imin, imax);
+      f.b1 = kind == 5 ? f.b0 : rng.range(f.b0, imax);
+    }
+  Viewgram<float> in = p->get_empty_viewgram(view, seg, false, tpos);
+  fill_viewgram(in, f, rng);
+
+  // ---- request
+  float zoom = rand_zoom(rng);
+  float xoff = rng.coin() ? 0.F : static_cast<float>((rng.unit() * 2 - 1) * in_bin * 2.5);
+  float yoff = rng.coin() ? 0.F : static_cast<float>((rng.unit() * 2 - 1) * in_bin * 2.5);
+  int omin, omax;
+  if (rng.range(0, 2) != 0)
+    { // a new range that covers the old one
+      const int half = static_cast<int>(std::ceil((std::max(std::abs(imin), std::abs(imax)) + 1 + (std::fabs(xoff) + std::fabs(yoff)) / in_bin) * zoom)) + 1;
+      omin = -half - rng.range(0, 1);
+      omax = half + rng.range(0, 1);
+    }
+  else
+    {
+      omin = rng.range(-8, 2);
+      omax = omin + rng.range(0, 10);
+    }
+  if (omax - omin > 40)
+    { // keep the lines short
+      omin = -20;
+      omax = 20;
+    }
+  if (rng.range(0, 9) == 0)
+    { // the identity request
+      zoom = 1.F;
+      xoff = yoff = 0.F;
+      omin = imin;
+      omax = imax;
+    }
+  const int nax = in.get_num_axial_poss();
+  const std::string dat = viewgram_data(in, false);
+  std::ostringstream req;
+  req << "zoom=" << vh::hex(zoom) << " offsets=" << vh::hex(xoff) << "," << vh::hex(yoff) << " range " << omin << ".." << omax << " N=" << N << " R=" << R
+      << " views=" << views << " view=" << view << " seg=" << seg << " tof=" << tpos << (tilted ? " (azimuthal offset)" : "");
+
+  // A: zoom_viewgram(out_view, in_view, x, y); the geometry of the result is the one of out_view, whose previous contents must not matter
+  shared_ptr<ProjDataInfo> pout(p->clone());
+  ProjDataInfoCylindricalArcCorr* poa = dynamic_cast<ProjDataInfoCylindricalArcCorr*>(pout.get());
+  poa->set_min_tangential_pos_num(omin);
+  poa->set_max_tangential_pos_num(omax);
+  poa->set_tangential_sampling(in_bin / zoom);
+  const float out_bin = poa->get_tangential_sampling();
+  Viewgram<float> A = pout->get_empty_viewgram(view, seg, false, tpos);
+  for (auto it = A.begin_all(); it != A.end_all(); ++it)
+    *it = rand_value(rng, true);
+  ++n_ops, std::fprintf(ops, "zvg out | %s %s %s %s %s | %d %d %d %d %d |%s\n", vh::hex(in_bin).c_str(), vh::hex(out_bin).c_str(),
+               vh::hex(pa->get_phi(Bin(seg, view, 0, 0))).c_str(), vh::hex(xoff).c_str(), vh::hex(yoff).c_str(), omin, omax - omin + 1, imin, imax - imin + 1, nax,
+               dat.c_str());
+  zoom_viewgram(A, in, xoff, yoff);
+  ++n_out, std::fprintf(out, "%s\n", viewgram_data(A, true).c_str() + 1);
+  viewgram_oracle(in, A, xoff, yoff, f, "zoom_viewgram(out, in, x, y): " + req.str());
+
+  // B: zoom_viewgram(viewgram, zoom, min_tang, max_tang, x, y), replacing the viewgram
+  Viewgram<float> B(in);
+  ++n_ops, std::fprintf(ops, "zvg inpl | %s %s %s %s %s | %d %d %d %d %d |%s\n", vh::hex(in_bin).c_str(), vh::hex(zoom).c_str(),
+               vh::hex(pa->get_phi(Bin(seg, view, 0, 0))).c_str(), vh::hex(xoff).c_str(), vh::hex(yoff).c_str(), omin, omax, imin, imax - imin + 1, nax, dat.c_str());
+  zoom_viewgram(B, zoom, omin, omax, xoff, yoff);
+  ++n_out, std::fprintf(out, "geom %d %d %s |%s\n", B.get_min_tangential_pos_num(), B.get_num_tangential_poss(), F(tang_sampling(B)).c_str(),
+               viewgram_data(B, true).c_str());
+  viewgram_oracle(in, B, xoff, yoff, f, "zoom_viewgram(viewgram, zoom, min, max, x, y): " + req.str());
+  ++oracle_checks;
+  {
+    bool same = B.get_min_tangential_pos_num() == omin && B.get_max_tangential_pos_num() == omax && tang_sampling(B) == out_bin
+                && B.get_min_axial_pos_num() == A.get_min_axial_pos_num() && B.get_max_axial_pos_num() == A.get_max_axial_pos_num();
+    if (same)
+      for (int a = A.get_min_axial_pos_num(); a <= A.get_max_axial_pos_num(); ++a)
+        for (int t = omin; t <= omax; ++t)
+          if (A[a][t] != B[a][t])
+            same = false;
+    if (!same)
+      oracle_fail("zoom_viewgram(out, in, x, y) and zoom_viewgram(viewgram, zoom, min, max, x, y) give different results for the same request: " + req.str());
+  }
+
+  // C: zoom_viewgrams on the set of symmetry-related viewgrams (each view has its own angle, hence its own shift)
+  if (rng.coin())
+    {
+      shared_ptr<DataSymmetriesForViewSegmentNumbers> symm;
+      try
+        {
+          shared_ptr<const DiscretisedDensity<3, float>> img(vh::make_image(*p, 1.F, 5)); // (explicit size: the default size needs more than one view)
+          symm.reset(new DataSymmetriesForBins_PET_CartesianGrid(p, img));
+        }
+      catch (...)
+        {
+          symm.reset(new TrivialDataSymmetriesForViewSegmentNumbers);
+        }
+      ViewSegmentNumbers vs(view, seg);
+      symm->find_basic_view_segment_numbers(vs);
+      RelatedViewgrams<float> rv = p->get_empty_related_viewgrams(vs, symm, false, tpos);
+      VgFill fr = f;
+      if (fr.uniform)
+        fr.b0 = imin, fr.b1 = imax;
+      for (RelatedViewgrams<float>::iterator it = rv.begin(); it != rv.end(); ++it)
+        {
+          fr.c = static_cast<float>(1 + rng.unit() * 5);
+          fill_viewgram(*it, fr, rng);
+        }
+      const RelatedViewgrams<float> rv_in = rv;
+      zoom_viewgrams(rv, zoom, omin, omax, xoff, yoff);
+      ++oracle_checks;
+      if (rv.get_num_viewgrams() != rv_in.get_num_viewgrams())
+        oracle_fail("zoom_viewgrams changes the number of related viewgrams: " + req.str());
+      RelatedViewgrams<float>::const_iterator ii = rv_in.begin();
+      for (RelatedViewgrams<float>::const_iterator io = rv.begin(); io != rv.end() && ii != rv_in.end(); ++io, ++ii)
+        {
+          ++n_ops, std::fprintf(ops, "zvg rel | %s %s %s %s %s | %d %d %d %d %d |%s\n", vh::hex(in_bin).c_str(), vh::hex(zoom).c_str(),
+                       vh::hex(pa->get_phi(Bin(ii->get_segment_num(), ii->get_view_num(), 0, 0))).c_str(), vh::hex(xoff).c_str(), vh::hex(yoff).c_str(), omin,
+                       omax, imin, imax - imin + 1, ii->get_num_axial_poss(), viewgram_data(*ii, false).c_str());
+          ++n_out, std::fprintf(out, "geom %d %d %s |%s\n", io->get_min_tangential_pos_num(), io->get_num_tangential_poss(), F(tang_sampling(*io)).c_str(),
+                       viewgram_data(*io, true).c_str());
+          // (uniform c differs per viewgram: recover it from the data)
+          VgFill fi = fr;
+          if (fi.uniform)
+            fi.c = (*ii)[ii->get_min_axial_pos_num()][imin];
+          viewgram_oracle(*ii, *io, xoff, yoff, fi, "zoom_viewgrams(related viewgrams, zoom, min, max, x, y): " + req.str());
+        }
+    }
+}
+
 // ---------------------------------------------------------------------------------------------- inverse_SSRB / extend_segment
+
+static std::string
+inv_ranges(const ProjDataInfo& p3, const ProjDataInfo& p4)
+{
+  std::ostringstream s;
+  s << p3.get_min_view_num() << " " << p3.get_max_view_num() << " " << p3.get_min_tangential_pos_num() << " " << p3.get_max_tangential_pos_num() << " "
+    << p4.get_min_view_num() << " " << p4.get_max_view_num() << " " << p4.get_min_tangential_pos_num() << " " << p4.get_max_tangential_pos_num();
+  return s.str();
+}
 
 static void
 run_inverse_ssrb(vh::Rng& rng)
 {
-  const int N = 8, R = rng.range(2, 7);
+  const int N = 12, R = rng.range(2, 7); // (at most N/2 - 1 = 5 tangential positions)
   const bool tof = rng.range(0, 3) == 0;
   shared_ptr<Scanner> scanner = vh::make_scanner(N, R, tof ? 3 : -1);
   const int span4 = (rng.coin() && 3 <= 2 * R - 1) ? 3 : 1;
   const int md4 = rng.range((span4 - 1) / 2, R - 1);
-  shared_ptr<ProjDataInfo> p4 = vh::make_pdi(scanner, span4, md4, N / 2, 3, false, tof ? 1 : 0);
+  // the guards: sometimes the direct sinograms have other views / tangential positions than the 4D data
+  // (0: compatible; 1,2: number of views; 3: tangential range with another first index; 4,5: same first index, another last index)
+  const int mismatch = rng.range(0, 4) == 0 ? rng.range(1, 5) : 0;
+  int views3 = N / 2, views4 = N / 2, ntang3 = 3, ntang4 = 3;
+  switch (mismatch)
+    {
+    case 1: views4 = N / 4; break;
+    case 2: views3 = N / 4; break;
+    case 3: ntang3 = 3, ntang4 = 4; break;
+    case 4: ntang3 = 4, ntang4 = 5; break;
+    case 5: ntang3 = 5, ntang4 = 4; break;
+    }
+  shared_ptr<ProjDataInfo> p4 = vh::make_pdi(scanner, span4, md4, views4, ntang4, false, tof ? 1 : 0);
   shared_ptr<ProjDataInfo> p3;
   const int kind = rng.range(0, 3);
   float rs3 = scanner->get_ring_spacing();
@@ -1059,15 +1607,15 @@ run_inverse_ssrb(vh::Rng& rng)
       shared_ptr<Scanner> scanner3(new Scanner(*scanner));
       scanner3->set_ring_spacing(rs3);
       const bool span3 = rng.coin() && R >= 2;
-      p3 = vh::make_pdi(scanner3, span3 ? 3 : 1, span3 ? 1 : 0, N / 2, 3, false, tof ? 1 : 0);
+      p3 = vh::make_pdi(scanner3, span3 ? 3 : 1, span3 ? 1 : 0, views3, ntang3, false, tof ? 1 : 0);
     }
   else if (kind == 0)
-    p3 = vh::make_pdi(scanner, 1, 0, N / 2, 3, false, tof ? 1 : 0);
+    p3 = vh::make_pdi(scanner, 1, 0, views3, ntang3, false, tof ? 1 : 0);
   else if (kind == 1 && R >= 2)
-    p3 = vh::make_pdi(scanner, 3, 1, N / 2, 3, false, tof ? 1 : 0);
+    p3 = vh::make_pdi(scanner, 3, 1, views3, ntang3, false, tof ? 1 : 0);
   else
     {
-      shared_ptr<ProjDataInfo> full = vh::make_pdi(scanner, 1, R - 1, N / 2, 3, false, tof ? 1 : 0);
+      shared_ptr<ProjDataInfo> full = vh::make_pdi(scanner, 1, R - 1, views3, ntang3, false, tof ? 1 : 0);
       p3.reset(SSRB(*full, 2 * R - 1, 1, 0, -1, 1)); // the classical single-slice rebinning geometry
     }
   auto c3 = dynamic_pointer_cast<ProjDataInfoCylindrical>(p3);
@@ -1075,29 +1623,51 @@ run_inverse_ssrb(vh::Rng& rng)
   if (!c3 || !c4)
     return;
   shared_ptr<ExamInfo> ei(new ExamInfo);
-  for (int pass = 0; pass < 2; ++pass) // pass 0: random sinogram values (correspondence), pass 1: ramp in m (oracle)
+  const std::string geoms = "R=" + std::to_string(R) + " 3D{" + geom_str(*c3) + "} 4D{" + geom_str(*c4) + "}";
+  for (int pass = 0; pass < (mismatch ? 1 : 2); ++pass) // pass 0: random bins (correspondence + interpolation oracle), pass 1: ramp in m (oracle)
     {
       ProjDataInMemory d3(ei, p3), d4(ei, p4);
+      d4.fill(7.F); // previous contents must not matter
       std::ostringstream o;
       o << "invssrb " << p4->get_min_tof_pos_num() << " " << p4->get_max_tof_pos_num() << " " << vh::hex(rs3) << " " << vh::hex(scanner->get_ring_spacing())
         << " | " << c3->get_min_ring_difference(0) << ","
         << c3->get_max_ring_difference(0) << "," << c3->get_num_axial_poss(0) << " | " << c4->get_min_segment_num();
       for (int sg = c4->get_min_segment_num(); sg <= c4->get_max_segment_num(); ++sg)
         o << " " << c4->get_min_ring_difference(sg) << "," << c4->get_max_ring_difference(sg) << "," << c4->get_num_axial_poss(sg);
-      o << " |";
-      std::map<std::pair<int, int>, float> cval;
+      o << " | " << inv_ranges(*p3, *p4) << " |";
+      const bool constant = pass == 0 && rng.range(0, 5) == 0; // sometimes constant sinograms
       for (int k = p3->get_min_tof_pos_num(); k <= p3->get_max_tof_pos_num(); ++k)
         for (int a = p3->get_min_axial_pos_num(0); a <= p3->get_max_axial_pos_num(0); ++a)
           {
-            const float c = pass == 0 ? rand_value(rng, true) : c3->get_m(Bin(0, 0, a, 0)) + 100.F + k;
-            cval[std::make_pair(a, k)] = c;
             Sinogram<float> sino = d3.get_empty_sinogram(a, 0, false, k);
-            sino.fill(c);
+            const float c = pass == 0 ? rand_value(rng, true) : c3->get_m(Bin(0, 0, a, 0)) + 100.F + k;
+            for (int v = sino.get_min_view_num(); v <= sino.get_max_view_num(); ++v)
+              for (int t = sino.get_min_tangential_pos_num(); t <= sino.get_max_tangential_pos_num(); ++t)
+                {
+                  sino[v][t] = (pass == 1 || constant) ? c : rand_value(rng, true);
+                  o << " " << vh::hex(sino[v][t]);
+                }
             d3.set_sinogram(sino);
-            o << " " << vh::hex(c);
           }
       if (pass == 0)
         ++n_ops, std::fprintf(ops, "%s\n", o.str().c_str());
+      if (mismatch)
+        { // must be refused; in a child process (adding sinograms of different sizes)
+          std::string res;
+          const int st = run_in_child(
+              [&] {
+                const Succeeded r = inverse_SSRB(d4, d3);
+                return std::string(r == Succeeded::yes ? "yes" : "no");
+              },
+              res);
+          ++n_out, std::fprintf(out, "%s\n", st == 0 ? res.c_str() : (st == 1 ? "err" : "crash"));
+          ++oracle_checks;
+          if (!(st == 0 && res == "no"))
+            oracle_fail("inverse_SSRB does not refuse direct sinograms whose views / tangential positions (" + inv_ranges(*p3, *p4)
+                        + ": min/max view, min/max tangential position of the 3D, then of the 4D data) differ from those of the 4D data: returns "
+                        + (st == 0 ? res : std::string(st == 1 ? "an exception" : "a crash")) + ": " + geoms);
+          continue;
+        }
       bool ok = true;
       try
         {
@@ -1114,40 +1684,60 @@ run_inverse_ssrb(vh::Rng& rng)
           continue;
         }
       std::ostringstream a;
-      bool first = true;
-      const float m_lo = c3->get_m(Bin(0, 0, p3->get_min_axial_pos_num(0), 0)), m_hi = c3->get_m(Bin(0, 0, p3->get_max_axial_pos_num(0), 0));
+      const int a3lo = p3->get_min_axial_pos_num(0), a3hi = p3->get_max_axial_pos_num(0);
+      const float m_lo = c3->get_m(Bin(0, 0, a3lo, 0)), m_hi = c3->get_m(Bin(0, 0, a3hi, 0));
       for (int sg = p4->get_min_segment_num(); sg <= p4->get_max_segment_num(); ++sg)
         for (int ax = p4->get_min_axial_pos_num(sg); ax <= p4->get_max_axial_pos_num(sg); ++ax)
           for (int k = p4->get_min_tof_pos_num(); k <= p4->get_max_tof_pos_num(); ++k)
             {
               const Sinogram<float> sino = d4.get_sinogram(ax, sg, false, k);
-              const float v = sino[sino.get_min_view_num()][sino.get_min_tangential_pos_num()];
-              a << (first ? "" : " ") << F(v);
-              first = false;
-              // ORACLE: every bin of the sinogram got the same combination; a ramp in m is reproduced at the output's m;
-              // an input sinogram at the same m is copied
-              ++oracle_checks;
-              if (sino.find_max() != sino.find_min())
-                oracle_fail("inverse_SSRB: output sinogram is not the same combination of input sinograms in every bin");
+              for (int v = sino.get_min_view_num(); v <= sino.get_max_view_num(); ++v)
+                for (int t = sino.get_min_tangential_pos_num(); t <= sino.get_max_tangential_pos_num(); ++t)
+                  a << " " << F(sino[v][t]);
               const float out_m = c4->get_m(Bin(sg, 0, ax, 0));
+              // ORACLE ("physical positions"): a ramp in m is reproduced at the output's m
               if (pass == 1 && out_m >= m_lo - 1e-3 && out_m <= m_hi + 1e-3)
                 {
                   ++oracle_checks;
-                  if (std::fabs(v - (out_m + 100.F + k)) > 2e-3)
+                  const float v = sino[sino.get_min_view_num()][sino.get_min_tangential_pos_num()];
+                  if (std::fabs(v - (out_m + 100.F + k)) > 2e-3 || sino.find_max() != sino.find_min())
                     oracle_fail("inverse_SSRB does not place data at the output's axial position: ramp value " + std::to_string(v) + " at m="
-                                + std::to_string(out_m) + " R=" + std::to_string(R) + " 3D{" + geom_str(*c3) + "} 4D{" + geom_str(*c4) + "}");
+                                + std::to_string(out_m) + " " + geoms);
                 }
-              if (pass == 0)
-                for (int a3 = p3->get_min_axial_pos_num(0); a3 <= p3->get_max_axial_pos_num(0); ++a3)
-                  if (std::fabs(c3->get_m(Bin(0, 0, a3, 0)) - out_m) < 1e-4)
-                    {
-                      ++oracle_checks;
-                      if (v != cval[std::make_pair(a3, k)])
-                        oracle_fail("inverse_SSRB does not copy the direct sinogram at the same axial position");
-                    }
+              // ORACLE, every bin: between the axial positions of the direct sinograms the output is their linear interpolation in m, bin by bin
+              // (a direct sinogram at the same m is copied)
+              if (pass == 0 && out_m >= m_lo - 1e-4 && out_m <= m_hi + 1e-4)
+                {
+                  int al = a3lo;
+                  for (int a3 = a3lo; a3 <= a3hi; ++a3)
+                    if (c3->get_m(Bin(0, 0, a3, 0)) <= out_m + 1e-4)
+                      al = a3;
+                  const int ar = std::min(al + 1, a3hi);
+                  const double ml = c3->get_m(Bin(0, 0, al, 0)), mr = c3->get_m(Bin(0, 0, ar, 0));
+                  double wr = ar == al ? 0. : (out_m - ml) / (mr - ml);
+                  if (std::fabs(out_m - ml) <= 1e-4)
+                    wr = 0.;
+                  const Sinogram<float> sl = d3.get_sinogram(al, 0, false, k), sr = d3.get_sinogram(ar, 0, false, k);
+                  bool same = true;
+                  double worst = 0;
+                  for (int v = sino.get_min_view_num(); v <= sino.get_max_view_num(); ++v)
+                    for (int t = sino.get_min_tangential_pos_num(); t <= sino.get_max_tangential_pos_num(); ++t)
+                      {
+                        const double expect = (1 - wr) * sl[v][t] + wr * sr[v][t];
+                        const double err = std::fabs(sino[v][t] - expect);
+                        worst = std::max(worst, err);
+                        if (err > 1e-4 * (std::fabs(sl[v][t]) + std::fabs(sr[v][t])) + 1e-30)
+                          same = false;
+                      }
+                  ++oracle_checks;
+                  if (!same)
+                    oracle_fail("inverse_SSRB: a 4D sinogram (segment " + std::to_string(sg) + ", axial position " + std::to_string(ax) + ", TOF " + std::to_string(k)
+                                + ", m=" + std::to_string(out_m) + ") is not, bin by bin, the linear interpolation in m of the two direct sinograms around it (m="
+                                + std::to_string(ml) + "," + std::to_string(mr) + "; largest difference " + std::to_string(worst) + "): " + geoms);
+                }
             }
       if (pass == 0)
-        ++n_out, std::fprintf(out, "%s\n", a.str().c_str());
+        ++n_out, std::fprintf(out, "%s\n", a.str().c_str() + 1);
     }
 }
 
@@ -1162,14 +1752,27 @@ run_extend(vh::Rng& rng)
   const int ntang = rng.range(3, N / 2 - 1);
   shared_ptr<Scanner> scanner = vh::make_scanner(N, R, -1);
   shared_ptr<ProjDataInfo> p = vh::make_pdi(scanner, 1, R - 1, views, ntang, false, 0);
+  // angular coverage: azimuthal sampling k*pi/views, k = kn/kd: 1 (the 180 degrees of PET data), 2 (360 degrees, as SPECT data), others (neither)
+  const int ks[][2] = { { 1, 1 }, { 1, 1 }, { 1, 1 }, { 2, 1 }, { 2, 1 }, { 2, 1 }, { 1, 2 }, { 4, 3 }, { 3, 2 }, { 3, 1 } };
+  int kn = 1, kd = 1;
+  {
+    const int pick = rng.range(0, 9);
+    kn = ks[pick][0], kd = ks[pick][1];
+    // a comparison of the source that would be decided by float rounding: not generated
+    if (std::abs((views - 1) * kn - 2 * views * kd) == 5 * kn || std::abs((views - 1) * kn - views * kd) == 5 * kn)
+      kn = kd = 1;
+  }
+  if (kn != kd)
+    dynamic_cast<ProjDataInfoCylindrical&>(*p).set_azimuthal_angle_sampling(static_cast<float>(kn * _PI / (kd * views)));
   const int segnum = rng.range(0, 2) == 0 ? 1 : 0;
   SegmentBySinogram<float> seg = p->get_empty_segment_by_sinogram(segnum);
   for (auto it = seg.begin_all(); it != seg.end_all(); ++it)
     *it = rand_value(rng, true);
   const int ve = rng.range(0, views / 2), ae = rng.range(0, 2), te = rng.range(0, 2);
   std::ostringstream o;
-  o << "ext " << segnum << " " << views << " | " << seg.get_min_axial_pos_num() << " " << seg.get_min_view_num() << " " << seg.get_min_tangential_pos_num()
-    << " " << seg.get_num_axial_poss() << " " << seg.get_num_views() << " " << seg.get_num_tangential_poss() << " | " << ve << " " << ae << " " << te << " |";
+  o << "ext " << segnum << " " << views << " " << kn << " " << kd << " | " << seg.get_min_axial_pos_num() << " " << seg.get_min_view_num() << " "
+    << seg.get_min_tangential_pos_num() << " " << seg.get_num_axial_poss() << " " << seg.get_num_views() << " " << seg.get_num_tangential_poss() << " | " << ve
+    << " " << ae << " " << te << " |";
   for (auto it = seg.begin_all(); it != seg.end_all(); ++it)
     o << " " << vh::hex(*it);
   ++n_ops, std::fprintf(ops, "%s\n", o.str().c_str());
@@ -1197,6 +1800,29 @@ run_extend(vh::Rng& rng)
       ++oracle_checks;
       if (!ok)
         oracle_fail("extend_segment changes the data inside the original range or invents values: " + o.str().substr(0, 60));
+      // ORACLE (physical positions): the added views are the views at the same angle modulo the period:
+      // 360 degrees: view v +- V is view v; 180 degrees (segment 0): view v +- V is view v with the tangential coordinate mirrored
+      const int V = seg.get_num_views(), v0 = seg.get_min_view_num(), v1 = seg.get_max_view_num();
+      const int t0 = seg.get_min_tangential_pos_num(), t1 = seg.get_max_tangential_pos_num();
+      if ((kn == 2 && kd == 1) || (kn == 1 && kd == 1 && segnum == 0))
+        {
+          const bool flip = kn == 1;
+          bool periodic = true;
+          for (int ax = seg.get_min_axial_pos_num(); ax <= seg.get_max_axial_pos_num(); ++ax)
+            for (int j = 1; j <= ve; ++j)
+              for (int tp = t0; tp <= t1; ++tp)
+                {
+                  const int ts = flip ? -tp : tp;
+                  if (ts < t0 || ts > t1)
+                    continue;
+                  if (e[ax][v0 - j][tp] != seg[ax][v0 - j + V][ts] || e[ax][v1 + j][tp] != seg[ax][v1 + j - V][ts])
+                    periodic = false;
+                }
+          ++oracle_checks;
+          if (!periodic)
+            oracle_fail(std::string("extend_segment: an added view does not hold the data of the view at the same angle (")
+                        + (flip ? "180 degrees: v +- V with mirrored tangential position" : "360 degrees: v +- V") + "): " + o.str().substr(0, 60));
+        }
     }
   catch (...)
     {
@@ -1347,7 +1973,8 @@ run_ssrb_case(const InCfg& c, vh::Rng& rng, bool thorough, int forced_kseg = 0)
             continue;
           if (o->get_num_views() == 0)
             continue;
-          run_ssrb_data(in, o, p, rng, thorough ? 260 : 140, rng.range(0, 2) == 0);
+          const bool also_norm = rng.range(0, 2) == 0;
+          run_ssrb_data(in, o, p, rng, thorough ? 260 : 140, also_norm, rng.range(0, 3) == 0);
           last_out = o;
         }
       in = last_out;
@@ -1365,6 +1992,9 @@ main(int argc, char** argv)
   ops = std::fopen(argv[3], "w");
   out = std::fopen(argv[4], "w");
   orc = std::fopen((std::string(argv[4]) + ".oracle").c_str(), "w");
+  mkdir("/tmp/C15", 0777);
+  scratch_dir = "/tmp/C15/harness-" + std::to_string(static_cast<long>(getpid()));
+  mkdir(scratch_dir.c_str(), 0777);
   // every case is guarded: an exception escaping from the library is a verdict, and the answer stream stays aligned
   auto guarded = [&](const char* what, const std::function<void()>& f) {
     try
@@ -1399,12 +2029,17 @@ main(int argc, char** argv)
   const int nzoom = thorough ? 1500 : 400;
   for (int k = 0; k < nzoom; ++k)
     guarded("zoom_image", [&] { run_zoom_case(rng); });
-  const int ninv = thorough ? 400 : 40;
+  const int nvg = thorough ? 8000 : 600;
+  for (int k = 0; k < nvg; ++k)
+    guarded("zoom_viewgram", [&] { run_zoom_viewgram(rng); });
+  const int ninv = thorough ? 1200 : 100;
   for (int k = 0; k < ninv; ++k)
     {
       guarded("inverse_SSRB", [&] { run_inverse_ssrb(rng); });
       guarded("extend_segment", [&] { run_extend(rng); });
     }
+  rmdir(scratch_dir.c_str());
+  write_oracle_fails();
   std::fprintf(orc, "ORACLE-DONE checks=%ld fails=%ld\n", oracle_checks, oracle_fails);
   std::fclose(ops);
   std::fclose(out);
